@@ -156,12 +156,15 @@ type world struct {
 	rbOpen   []bool
 	rlGrants []uint // per layer: permits granted so far by the reference limiter
 
-	ctxKeyKind int // 0 none, 1 string key "c" in the context, 2 non-string value under CacheKey
+	ctxKeyKind int // 0 none, 1 string key "c" in the context, 2 non-string value under CacheKey, 3 empty string key
 }
 
 func (w *world) effKey(c layerCfg) string {
 	if w.ctxKeyKind == 1 {
 		return "c" // a string key supplied through the context takes precedence
+	}
+	if w.ctxKeyKind == 3 {
+		return "" // ... also when it is empty: then there is no key and the cache is neither read nor written
 	}
 	return c.key
 }
@@ -503,6 +506,8 @@ func runHistory(w *world, execs int, maxInv int) {
 			ctx = context.WithValue(ctx, cachepolicy.CacheKey, "c")
 		case 2:
 			ctx = context.WithValue(ctx, cachepolicy.CacheKey, 123)
+		case 3:
+			ctx = context.WithValue(ctx, cachepolicy.CacheKey, "")
 		}
 		gotV, gotE := ex.WithContext(ctx).GetWithExecution(func(exec failsafe.Execution[int]) (int, error) {
 			if len(w.script)-startInv >= maxInv {
@@ -653,7 +658,7 @@ func ZZ_C10_Fallback() {
 // C11: cache around nothing or one stateful inner policy; configured and context-supplied keys.
 func ZZ_C11_Cache() {
 	w := &world{}
-	w.ctxKeyKind = zzvrt.Choose("ctx-key", 3)
+	w.ctxKeyKind = zzvrt.Choose("ctx-key", 4)
 	w.cfgs = []layerCfg{chooseCfg(kCache, 0)}
 	switch zzvrt.Choose("inner", 5) {
 	case 1:
